@@ -128,6 +128,9 @@ func C07(c *Ctx) {
 	r.Rule("R07.6", "the undo restores what was recorded (shared with C13 R13.6): no function of internal/ledger removes an entry from an account's dirty set, and storageChange.revert stores the recorded previous value, nil included, on every path - otherwise a reverted transaction leaves the layers below showing through instead of the value the block had before it.")
 	c.c13Undo("R07.6")
 	r.NotDecided = append(r.NotDecided, "EVM- and wasmtime-internal atomicity; gas arithmetic; that the journal's revert functions restore exact values (C13)")
+	// a FAILED transaction has no effect on the timeout bookkeeping either: a failed request is not listed, a failed
+	// receipt takes nothing out of the list (decided by the C06 rule set)
+	r.Borrow(map[string]string{"R06.2": "R07.7", "R06.8": "R07.8"}, func() { C06(c) })
 
 	// ---- R07.1
 	nEntries := 0
